@@ -4,6 +4,16 @@ import json, os, sys
 HERE = os.path.dirname(os.path.dirname(os.path.abspath(__file__)))
 
 CHECKS = {
+ "C15": dict(
+   technique="grammar-based enumeration + Hypothesis recursive nesting; totality/termination, existential target re-derivation and fixed-point laws",
+   text="Every (position x key x target x encoding level) combination of a redirect grammar incl. keys in host/userinfo position, relative, self-referential and nested targets, AMP/Marfeel/youtube panels, random nestings and arbitrary strings; RecursionError/alarm = violation; single-step result must be the input or derivable from a key=value / cache tail of the input; recursive result == limit of single steps and is a fixed point.",
+   note="Trusted base: harness-owned key list and cache pattern; stdlib unquote/urljoin for the existential re-derivation. Termination is evidence on generated inputs, not a proof of boundedness.",
+   design="§4 C15"),
+ "C20": dict(
+   technique="algebraic-law property-based testing (Hypothesis + exhaustive panels) and reference decoding of built URLs",
+   text="Protocol laws (idempotence, prefix, strip-invariance, force == ensure o strip) over grammar URLs, near-protocol strings and random alphabetic protocols; format_url/URLFormatter results re-parsed and decoded against the retained arguments, junction, fragment and '?' rules; add_query_argument items/fragment preservation and read-back; pathsplit laws.",
+   note="Trusted base: harness copy of the documented protocol regex; vlib/urlref.dec. Stacked-protocol inputs excluded (law unsatisfiable there).",
+   design="§4 C20"),
  "C11": dict(
    technique="model-based testing: exhaustive short store-histories + Hypothesis histories against a dict/longest-prefix model; variant-equality law",
    text="Every history of <=2/3 stores (URL, serialized-LRU, stem-list and item forms mixed) over a 20-URL universe for the four trie classes x suffix_aware, with 40 queries after the last store; random histories with the variants' own options checked after every step; whenever the variant function maps a stored URL and a query to the same string the query must hit. Exhaustive within bounds.",
